@@ -2,6 +2,7 @@ package main
 
 import (
 	"encoding/json"
+	"errors"
 	"fmt"
 	"net/http"
 	"sort"
@@ -121,6 +122,8 @@ func (w *world) apply(ws []string) bool {
 			w.extra = []string{"h=" + hashOf(pl[:interop.MaxPayloadSize])}
 		}
 		s.Invoke(c, pl, fmt.Sprintf("Root=1-5e1b4151-%024d;Parent=53995c3f42cd8ad8;Sampled=1", c))
+	case "init":
+		s.Init()
 	case "hook": // hook <point> <delay-ms>   (0 disarms)
 		ms, _ := strconv.Atoi(ws[2])
 		if ms == 0 {
@@ -346,7 +349,14 @@ func (w *world) apply(ws []string) bool {
 		}
 		go func() {
 			_, err := s.Srv.Restore(&interop.Restore{AwsKey: key, AwsSecret: "s2", AwsSession: "t2", CredentialsExpiry: time.Now().Add(time.Hour), RestoreHookTimeoutMs: int64(ms)})
-			s.L.Add("restore done err=%s", errText(err))
+			var ue interop.ErrRestoreHookUserError
+			if errors.As(err, &ue) {
+				s.L.Add("restore done err=userError:%s", ue.UserError.Type)
+			} else if err != nil && strings.HasPrefix(err.Error(), "Runtime exited") {
+				s.L.Add("restore done err=procExit")
+			} else {
+				s.L.Add("restore done err=%s", errText(err))
+			}
 		}()
 	default:
 		return false
